@@ -61,6 +61,7 @@ pub struct Session {
     pub uri: Uri,
     pub uri_str: String,
     pub urls: VirtualUrlGenerator,
+    pub timeouts_retried: u64,
 }
 
 impl Session {
@@ -78,7 +79,7 @@ impl Session {
             let _g = rt.enter();
             ServerContext::new(server, caps)
         };
-        let s = Session { rt, ctx, client, next_id: 0, uri, uri_str, urls };
+        let s = Session { rt, ctx, client, next_id: 0, uri, uri_str, urls, timeouts_retried: 0 };
         let snap = s.ctx.snapshot();
         let base = s.urls.base.clone();
         s.rt.block_on(async {
@@ -160,8 +161,19 @@ impl Session {
         out
     }
 
-    /// request + wait for its response
+    /// request + wait for its response; a request that got no response within 30 s is sent once more (a stall of
+    /// the loaded machine is not a hang of the handler; hangs are C28's subject) and the retry is counted
     pub fn request(&mut self, method: &str, params: Value) -> Reply {
+        match self.request_once(method, params.clone()) {
+            Reply::Timeout => {
+                self.timeouts_retried += 1;
+                self.request_once(method, params)
+            }
+            r => r,
+        }
+    }
+
+    fn request_once(&mut self, method: &str, params: Value) -> Reply {
         let id = self.fresh_id();
         self.post(id, method, params);
         let want = RequestId::from(id);
